@@ -656,7 +656,9 @@ def oracle_update(c, r):
 NESTED = {"pelt": "cost", "mw": "change_score", "sbs": "change_score", "cbs": "anomaly_score", "capa": "collective_saving",
           "mvcapa": "collective_saving", "loc": "cost", "sav": "baseline_cost", "chg": "cost",
           # the cost inside a Saving handed to the detector is REPLACED by one of another class (other parameter count)
-          "mvcapa-swap": "collective_saving__baseline_cost", "capa-swap": "collective_saving__baseline_cost"}
+          "mvcapa-swap": "collective_saving__baseline_cost", "capa-swap": "collective_saving__baseline_cost",
+          # a hyper-parameter of the change detector wrapped by an anomaliser
+          "stat-nested": "change_detector__bandwidth"}
 
 
 def nested_case(rng):
@@ -700,9 +702,29 @@ def impl_nested_swap(c):
         return {"outcome": "other:" + type(ex).__name__, "msg": str(ex)[:200]}
 
 
+def impl_nested_stat(c):
+    from skchange.anomaly_detectors import StatThresholdAnomaliser
+    from skchange.change_detectors import MovingWindow
+
+    X = datasets(c["seed"])[c["data"]].iloc[:, [0]]
+    b0, b1 = 3, {2.5: 6, -1.5: 5, 4.0: 8}[c["p1"]]
+    try:
+        a = StatThresholdAnomaliser(MovingWindow(bandwidth=b0), stat=np.mean, stat_lower=-0.5, stat_upper=0.5)
+        if c["used_before"]:
+            a.fit(X).predict(X)
+        a.set_params(change_detector__bandwidth=b1)
+        b = StatThresholdAnomaliser(MovingWindow(bandwidth=b1), stat=np.mean, stat_lower=-0.5, stat_upper=0.5)
+        same = frame_sig(a.fit(X).predict(X)) == frame_sig(b.fit(X).predict(X))
+        return {"outcome": "ok", "same": bool(same)}
+    except Exception as ex:
+        return {"outcome": "other:" + type(ex).__name__, "msg": str(ex)[:200]}
+
+
 def impl_nested(c):
     """an object whose wrapped cost is re-configured through `set_params(<component>__param=...)` must behave like one
     constructed with that configuration"""
+    if c["kind"] == "stat-nested":
+        return impl_nested_stat(c)
     if c["kind"].endswith("-swap"):
         return impl_nested_swap(c)
     X = datasets(c["seed"])[c["data"]]
@@ -736,7 +758,8 @@ def oracle_nested(c, r):
     if r["outcome"] != "ok":
         return f"{c['kind']}: nested set_params raised {r['outcome']} {r.get('msg', '')}"
     if not r["same"]:
-        what = f"set_params({NESTED[c['kind']]}=GaussianVarCost(...))" if c["kind"].endswith("-swap") else f"set_params({NESTED[c['kind']]}__param={c['p1']})"
+        what = (f"set_params({NESTED[c['kind']]}=GaussianVarCost(...))" if c["kind"].endswith("-swap") else
+                f"set_params({NESTED[c['kind']]}=...)" if c["kind"] == "stat-nested" else f"set_params({NESTED[c['kind']]}__param={c['p1']})")
         return (f"{c['kind']} ({c['cost']}) re-configured by {what} differs from an object constructed that way"
                 + (" (it had been fitted before)" if c["used_before"] else ""))
     return None
